@@ -82,7 +82,15 @@ def run(res, replay=None):
         for s in range(nspec):
             spec = gen.rand_spec(rng, n_total=rng.choice([2, 3, 4]), end_time='never',
                                  n_epochs=(rng.choice([2, 3]) if s % 2 == 0 else None))
+            if s % 4 == 3:
+                # the same rates in force in two epochs: one batch with times in both must still return each time's own epoch
+                spec = gen.recurring_spec(rng, n_total=rng.choice([2, 3]), n_demes=rng.choice([1, 2]))
             lists = gen_time_lists(rng, spec, res.tier)
+            if spec.get('recurring'):
+                bds = sorted({float(t) for d in spec['pop_sizes'].values() for t in d})
+                inside = [(a + b) / 2 for a, b in zip(bds, bds[1:])] + [bds[-1] + 1.0]
+                for perm in (inside, inside[::-1], inside[1:] + inside[:1]):
+                    cases.append({'spec': spec, 'ts': list(perm), 'container': rng.choice(['list', 'array']), 'entry': 'epochs'})
             for ts in lists:
                 ep = rng.choice(ENTRIES)
                 cases.append({'spec': spec, 'ts': ts, 'container': rng.choice(['list', 'tuple', 'array']), 'entry': ep})
